@@ -324,3 +324,57 @@ func VerifC16_SchemaUnits() {
 	verifObserve("ok", err == nil)
 	verifReach("C16/schema/end")
 }
+
+// float quantities that are whole numbers: "%f" of a whole float below 2^53 is its decimal digits followed by
+// ".000000" and ParseFloat of digits[.zeros] is the integer (both modelled exactly, DESIGN 8.2); fractional
+// quantities need decimal expansions of symbolic floats and stay outside the claim
+func init() {
+	verifRegister("VerifC16_FormatParseShortFloatWhole", VerifC16_FormatParseShortFloatWhole)
+	verifRegister("VerifC16_FormatParseLongFloatWhole", VerifC16_FormatParseLongFloatWhole)
+}
+
+// whole float quantities: below 2^4 in the quick tier (two of the 7-unit of the odd set 91/7/1), below 2^7 in the
+// thorough tier (one of each unit, two minutes): every fp.div/floor obligation costs the solver seconds
+// unit sets for the float entries: the odd set 91/7/1 and the set without multipliers in the quick tier
+func verifFloatUnitChoice() int {
+	if verifTier() > 0 {
+		return [3]int{2, 3, 5}[nondetChoice("unitsFloat", 3)]
+	}
+	return [2]int{3, 5}[nondetChoice("unitsFloatQuick", 2)]
+}
+
+func verifWholeFloatQuantity(name string) float64 {
+	d := nondetInt64(name)
+	bound := int64(1) << 4
+	if verifTier() > 0 {
+		bound = int64(1) << 7
+	}
+	verifAssume(vAnd(d >= 0, d < bound))
+	return float64(d)
+}
+
+func VerifC16_FormatParseShortFloatWhole() {
+	u := verifUnitSet(verifFloatUnitChoice())
+	data := verifWholeFloatQuantity("data")
+	s := u.FormatShortFloat(data)
+	back, err := u.ParseFloat(s)
+	verifAssert("C16/short-float/format-then-parse-accepted", err == nil)
+	if err == nil {
+		verifAssert("C16/short-float/format-then-parse-is-identity", back == data)
+	}
+	verifObserve("formatted", s)
+	verifReach("C16/short-float/end")
+}
+
+func VerifC16_FormatParseLongFloatWhole() {
+	u := verifUnitSet(verifFloatUnitChoice())
+	data := verifWholeFloatQuantity("data")
+	s := u.FormatLongFloat(data)
+	back, err := u.ParseFloat(s)
+	verifAssert("C16/long-float/format-then-parse-accepted", err == nil)
+	if err == nil {
+		verifAssert("C16/long-float/format-then-parse-is-identity", back == data)
+	}
+	verifObserve("formatted", s)
+	verifReach("C16/long-float/end")
+}
